@@ -69,6 +69,7 @@ type vfThrCase struct {
 	StartFail []int    `json:"start_fail,omitempty"` // ordinals of base StartRecording calls that fail
 	CheckFail []int    `json:"check_fail,omitempty"` // ordinals of base CheckCanRecord calls that fail
 	StopFail  []int    `json:"stop_fail,omitempty"`  // ordinals of base StopRecording calls that fail
+	WriteFail []int    `json:"write_fail,omitempty"` // ordinals of base WriteFrame calls that fail
 	Sessions  bool     `json:"sessions"`             // caller keeps to start; write*; stop
 }
 
@@ -93,6 +94,8 @@ type vfBase struct {
 	checkFail map[int]bool
 	stops     int
 	stopFail  map[int]bool
+	writes    int
+	writeFail map[int]bool
 }
 
 var vfInjected = errors.New("injected start failure")
@@ -116,7 +119,12 @@ func (b *vfBase) StartRecording(bg *cptvframe.Frame, thr uint16) error {
 	return nil
 }
 func (b *vfBase) WriteFrame(f *cptvframe.Frame) error {
-	b.calls = append(b.calls, vfBaseCall{C: 'W', At: b.clock.now, Req: b.req, F: f})
+	n := b.writes
+	b.writes++
+	b.calls = append(b.calls, vfBaseCall{C: 'W', At: b.clock.now, Req: b.req, F: f, Err: b.writeFail[n]})
+	if b.writeFail[n] {
+		return vfInjected
+	}
 	return nil
 }
 func (b *vfBase) CheckCanRecord() error {
@@ -191,6 +199,10 @@ func vfRunThrottle(c vfThrCase) *vfThrRun {
 	base := &vfBase{clock: clock, fail: map[int]bool{}, checkFail: map[int]bool{}, stopFail: map[int]bool{}}
 	for _, i := range c.StopFail {
 		base.stopFail[i] = true
+	}
+	base.writeFail = map[int]bool{}
+	for _, i := range c.WriteFail {
+		base.writeFail[i] = true
 	}
 	for _, i := range c.StartFail {
 		base.fail[i] = true
@@ -585,6 +597,9 @@ func vfGenC06(t *rapid.T) vfThrCase {
 			c.StopFail = append(c.StopFail, from+i)
 		}
 	}
+	if rapid.IntRange(0, 4).Draw(t, "writefail") == 0 {
+		c.WriteFail = rapid.SliceOfN(rapid.IntRange(0, 40), 1, 5).Draw(t, "writefails")
+	}
 	c.StartFail = []int{}
 	n := rapid.SampledFrom([]int{0, 0, 1, 2, 3}).Draw(t, "nfail")
 	for i := 0; i < n; i++ {
@@ -765,6 +780,9 @@ func vfRunC06(c vfThrCase) *kit.Result {
 					}
 					if cs[0].F != run.frames[q] {
 						return fail("a different frame was forwarded")
+					}
+					if cs[0].Err != run.reqErr[q] {
+						return fail("the wrapped recorder's write failed=%v but the caller was told failed=%v", cs[0].Err, run.reqErr[q])
 					}
 					if frozen && remaining < 1 {
 						return fail("frozen clock: frame forwarded with no budget left")
